@@ -29,9 +29,10 @@ class Ctx:
     return self._cg
 
   def cfg(self, f: FuncInfo) -> cfg_lib.CFG:
-    g = self._cfgs.get(f.qualname)
+    key = (f.qualname, id(f.node))   # views of one function have their own
+    g = self._cfgs.get(key)
     if g is None:
-      g = self._cfgs[f.qualname] = cfg_lib.CFG(f.body, f.qualname)
+      g = self._cfgs[key] = cfg_lib.CFG(f.body, f.qualname)
     return g
 
   # ------------------------------------------------------------- anchors
